@@ -631,6 +631,42 @@ Definition chk_lookup (cfg tn : Z) : bool :=
   | None => (trx_layout_real cfg tn =? -1) && negb (existsb (Z.eqb cfg) c11_configs)
   end.
 
+(* ------------------------------------------------------------------ trxcon: from an RSL channel number to the channel combination
+   sched_trx.c l1sched_chan_nr2pchan_config(uint8_t chan_nr): what handle_dch_est_req() hands to l1sched_configure_ts() when a dedicated
+   channel is established.  cbits = chan_nr >> 3; ABIS_RSL_CHAN_NR_CBITS_*: Bm 0x01, Lm 0x02+s, SDCCH/4 0x04+s, SDCCH/8 0x08+s,
+   Osmocom PDCH 0x18, CBCH on SDCCH/4 0x19, CBCH on SDCCH/8 0x1a *)
+Definition trx_chan_nr2pchan (chan_nr : Z) : Z :=
+  let cbits := Z.shiftr (u8 chan_nr) 3 in
+  if cbits =? 1 then tx_GSM_PCHAN_TCH_F
+  else if Z.land cbits 30 =? 2 then tx_GSM_PCHAN_TCH_H
+  else if Z.land cbits 28 =? 4 then tx_GSM_PCHAN_CCCH_SDCCH4
+  else if Z.land cbits 24 =? 8 then tx_GSM_PCHAN_SDCCH8_SACCH8C
+  else if Z.land cbits 31 =? 25 then tx_GSM_PCHAN_CCCH_SDCCH4_CBCH
+  else if Z.land cbits 31 =? 26 then tx_GSM_PCHAN_SDCCH8_SACCH8C_CBCH
+  else if Z.land cbits 31 =? 24 then tx_GSM_PCHAN_PDCH
+  else tx_GSM_PCHAN_NONE.
+
+(* rows of channels that are established through a channel number (everything but BCCH and CCCH, which the CCCH mode selects) *)
+Definition row_dedicated (r : row) : bool := negb ((r_lchan r =? tx_L1SCHED_BCCH) || (r_lchan r =? tx_L1SCHED_CCCH)).
+
+Definition tnrule_eqb (a b : tnrule) : bool :=
+  match a, b with TnAll, TnAll | TnEven, TnEven | TnOdd, TnOdd => true | _, _ => false end.
+Definition mode_eqb (a b : mode) : bool :=
+  match a, b with Block, Block | BlockDL, BlockDL | Tch, Tch => true | _, _ => false end.
+Definition optz_eqb (a b : option Z) : bool :=
+  match a, b with Some x, Some y => x =? y | None, None => true | _, _ => false end.
+(* the same firmware task, channel, SACCH, timeslots and mode - possibly under another combination *)
+Definition same_chan (r r' : row) : bool :=
+  (r_task r =? r_task r') && (r_lchan r =? r_lchan r') && optz_eqb (r_sacch r) (r_sacch r') &&
+  tnrule_eqb (r_tn r) (r_tn r') && mode_eqb (r_mode r) (r_mode r').
+
+(* the channel number the firmware reports for the row's task on timeslot tn resolves to a combination under which the table has this
+   very channel (dedicated rows); BCCH / CCCH channel numbers do not resolve (GSM_PCHAN_NONE) *)
+Definition chk_resolve (r : row) (tn : Z) : bool :=
+  let cfg := trx_chan_nr2pchan (fw_task_chan_nr (r_task r) tn) in
+  if row_dedicated r then existsb (fun r' => same_chan r r' && (r_cfg r' =? cfg)) c11_rows
+  else cfg =? tx_GSM_PCHAN_NONE.
+
 (* ------------------------------------------------------------------ failing-input search (same checkers, first offender) *)
 
 Definition pairs {A B} (la : list A) (lb : list B) : list (A * B) := flat_map (fun a => map (fun b => (a, b)) lb) la.
@@ -951,5 +987,12 @@ Definition w_c11_fw_hist (a : list Z) : list Z :=
       | Some ops => if forallb hop_ok ops then match hist_run ops mf_reset with Some out => out | None => [-1] end else [-999]
       | None => [-999]
       end
+  | _ => [-999]
+  end.
+
+(* [chan_nr] -> l1sched_chan_nr2pchan_config(chan_nr) *)
+Definition w_c11_resolve (a : list Z) : list Z :=
+  match a with
+  | [c] => if (0 <=? c) && (c <? 256) then [trx_chan_nr2pchan c] else [-999]
   | _ => [-999]
   end.
